@@ -223,7 +223,7 @@ def classify(parsed):
 class Harness:
     def __init__(self, name, unwind, feature="on", timeout=900, mem_gb=12, loops=None,
                  desc="", bounds=None, assumptions=None, expect="pass", finding=None,
-                 tier="quick", solver=None, extra_args=None, stub_exact=True, fs=256, bytewise=0):
+                 tier="quick", solver=None, extra_args=None, stub_exact=True, fs=256, bytewise=0, mem_est=None):
         self.name = name
         self.unwind = unwind
         self.feature = feature
@@ -241,6 +241,7 @@ class Harness:
         self.stub_exact = stub_exact
         self.fs = fs                  # CBMC --max-field-sensitivity-array-size
         self.bytewise = bytewise      # >0: link vlib/bytewise_mem.c, memcpy/memmove loop bound
+        self.mem_est = mem_est if mem_est is not None else min(mem_gb, 5)  # admission estimate (GB)
 
     @property
     def key(self):
@@ -502,12 +503,12 @@ class Pool:
         with cv:
             while pending or running:
                 started = False
-                used = sum(x.mem_gb for x in running.values())
+                used = sum(x.mem_est for x in running.values())
                 for h in list(pending):
-                    if len(running) < self.max_par and (used + h.mem_gb <= self.cap or not running):
+                    if len(running) < self.max_par and (used + h.mem_est <= self.cap or not running):
                         pending.remove(h)
                         running[h.key] = h
-                        used += h.mem_gb
+                        used += h.mem_est
                         threading.Thread(target=work, args=(h,), daemon=True).start()
                         started = True
                 if not started or not pending:
